@@ -574,7 +574,8 @@ class Parser:
                 if '\n' in txt:
                     pos = txt.find('\n') + 1
                     t2.txt = txt[pos:]
-                    t2.pos += pos
+                    if not t2.pos_fix:
+                        t2.pos += pos
                 else:
                     t2.txt = ''
                     t2.pos += len(txt)
